@@ -7,6 +7,7 @@ UNITS = ["src/sp/transport/tcp/tcp.c", "src/sp/transport/ipc/ipc.c", "src/sp/tra
 RULE = "Single steps with the wire bytes fully symbolic: handshake (any 8 bytes), length prefix (any 64-bit value x any RECVMAXSZ), protocol headers by class with symbolic payload, accept result (any nng_err)."
 BOUNDS = "one step per query; protocol headers up to 16 hop words"
 OUTSIDE = "udp transport; long hostile sessions (locality of each step is what is decided); websocket/http are C16"
+GROUP_WITNESS = False  # re-uses subsets of other properties' sweeps; each query still needs its own witness
 ASSUMPTIONS = ["as in C01/C04/C07/C08/C13"]
 ENV = C01.ENV
 
